@@ -89,9 +89,17 @@ def ramp_job(c):
         err = y[good] - (t[good] - nc)
         i = int(np.argmax(np.abs(err)))
         errc = y[centre] - (t[centre] - nc)
+        # a dft stage transforms whole blocks: the rounding of its FFT is proportional to the largest magnitude INSIDE the block, not to the local
+        # value, so about the zero crossing the ramp may be off by what numbers of size (half a block, in input frames) cost
+        rate, blk = 1.0, 0.0
+        for st in info["stages"]:
+            if st["kind"] == "dft" and st.get("L"):
+                blk = max(blk, st["dftLen"] / st["L"] / rate)
+            rate *= 0.5 if st["kind"] == "half" else (st["L"] / st["M"] if st["kind"] == "dft" and st.get("M", 0) > 0 else
+                                                      st["den"] / st["step"] if st.get("step") else 1.0)
         return {"cfg": c, "engine": info["engine"], "bits": P.bits_of(info), "N": N, "span": span, "n": int(good.sum()),
                 "err": float(np.abs(err).max()), "mean": float(err.mean()), "at": float(t[good][i]), "out": len(y),
-                "errc": float(np.abs(errc).max()), "wc": wc + span, "plan": P.plan_strs(info), "sig": P.plan_sig(info),
+                "errc": float(np.abs(errc).max()), "wc": max(wc + span, min(N / 2.0, blk)), "plan": P.plan_strs(info), "sig": P.plan_sig(info),
                 "hiprec": any(s.get("hiprec") == 1 for s in info["stages"]), "irrational": P.impl_period(info) is None, "io_ratio": ir / orr}
     except Exception as e:      # noqa
         return {"cfg": c, "error": repr(e)[-500:]}
